@@ -213,8 +213,8 @@ class Builder:
             elif sig.endswith("(string)"):
                 words = nm
             elif sig.endswith("(uint256,uint256)"):
-                lo = ch.choose([0, 5, 1 << 255], lbl + ".lo")
-                words = [lo, lo + ch.choose([0, 1, 100], lbl + ".d")]
+                lo = ch.choose([0, 5, 1 << 255, (1 << 255) - 2, 1], lbl + ".lo")
+                words = [lo, lo + ch.choose([0, 1, 100, 4, (1 << 255) - 1], lbl + ".d")]  # incl. ranges straddling 2**255
             elif sig.endswith("(uint256)"):
                 words = [ch.choose([1, 8, 255, 256, 32, 33], lbl + ".bits")]
             else:
